@@ -26,3 +26,10 @@ run H5_max_to_if paranoid_crypto/lib/randomness_tests/nist_suite.py 's=s.replace
 run H6_augassign paranoid_crypto/lib/randomness_tests/rng.py 's=s.replace("      x ^= x >> 12\n","      x = x ^ (x >> 12)\n")' C20
 run H7_guard_order paranoid_crypto/lib/ntheory_util.py 's=s.replace("  if n % 2 == 0:\n    return None\n  a = n % 4\n","  if n % 2 != 1:\n    return None\n  a = n % 4\n")' C19
 run H8_loop_var paranoid_crypto/lib/ecdsa_sig_checks.py 's=s.replace("  for i, guess_pk in enumerate(curve.BatchMultiplyG(guesses)):\n    if guess_pk in pks:\n      for idx in pks[guess_pk]:\n        issuer_dlogs[idx] = guesses[i]","  for num, guess_pk in enumerate(curve.BatchMultiplyG(guesses)):\n    if guess_pk in pks:\n      for idx in pks[guess_pk]:\n        issuer_dlogs[idx] = guesses[num]")' C02
+run H9_negate_temp paranoid_crypto/lib/ec_util.py 's=s.replace("      negated.append(self.Negate(p))\n","      neg_p = self.Negate(p)\n      negated.append(neg_p)\n")' C10 C17
+run H10_ladder_rewrite paranoid_crypto/lib/randomness_tests/extended_nist_suite.py 's=s.replace("  while size * size <= n:","  while n >= size * size:").replace("    size *= 2\n","    size = 2 * size\n")' C13 C12
+run H11_pollard_temp paranoid_crypto/lib/rsa_util.py 's=s.replace("  if gmpy.gcd(n - 1, m) >= gcd_bound:\n    a = pow(2, n - 1, n)","  g = gmpy.gcd(n - 1, m)\n  if g >= gcd_bound:\n    e = n - 1\n    a = pow(2, e, n)")' C05 C01
+run H12_jacobian_reorder paranoid_crypto/lib/ec_util.py 's=s.replace("    u1 = x1 * z2sqr % mod\n    u2 = x2 * z1sqr % mod\n    s1 = y1 * z2 * z2sqr % mod\n    s2 = y2 * z1 * z1sqr % mod\n","    u2 = x2 * z1sqr % mod\n    s2 = y2 * z1 * z1sqr % mod\n    u1 = x1 * z2sqr % mod\n    s1 = y1 * z2 * z2sqr % mod\n")' C11
+run H13_check_loop_temp paranoid_crypto/lib/rsa_single_checks.py 'i=s.index("class CheckSizes"); j=s.index("class CheckExponents"); t=s[i:j]; k=t.index("      test_result = self._CreateTestResult()"); t=t[:k]+"      modulus_bytes = key.rsa_info.n\n"+t[k:]; s=s[:i]+t+s[j:]' C17 C16
+run H14_split_shift_temp paranoid_crypto/lib/randomness_tests/util.py 's=s.replace("      val >>= (i * m) & 7\n","      shift = (i * m) & 7\n      val >>= shift\n")' C15
+run H15_batchinverse_alias paranoid_crypto/lib/ec_util.py 's=s.replace("        res[i] = res[i] * inverse % mod\n        inverse = inverse * v % mod\n","        prefix = res[i]\n        res[i] = prefix * inverse % mod\n        inverse = v * inverse % mod\n")' C11
